@@ -1,5 +1,6 @@
 """C05 Content-line join/split are inverse; values cannot inject structure."""
 import itertools
+import sys
 from collections import Counter
 from datetime import datetime, timezone
 
@@ -19,8 +20,15 @@ RULE = ("(1) join/split: names over RFC tokens x parameter maps (0-2 parameters 
         "escape or control character; distinct by construction / case hash")
 ASSUMPTIONS = ["any exception while building or serialising counts as 'refused' (its type is C04's business)",
                "a property missing after re-parse is accepted only with an entry in the lenient component's error list",
-               "python -O (assertions stripped) is not explored"]
+               "one of the 16 shards runs under python -O (assert statements stripped)"]
 SOFT_S = {"quick": 12, "thorough": 240}
+
+
+def shard_env(tier, k, nshards):
+    """the last shard runs the interpreter with -O (assert statements stripped)"""
+    return {"PYTHONOPTIMIZE": "1"} if k == nshards - 1 and nshards > 1 else {}
+
+
 SPECIAL = set('\\;,:"%\r\n=')
 NAMES = ["SUMMARY", "X-FOO", "ATTENDEE", "a-b-1", "URL"]
 VCLASSES = ("text", "uri", "caladdress", "inline")
@@ -301,6 +309,21 @@ def structure_of(comp, path=()):
     return st, errs
 
 
+def raw_break_written(payload, data):
+    """the output contains a CR/LF of the payload verbatim: with payload text next to it, or - for a payload that is nothing but
+    line breaks - between two delimiters, where a value belongs"""
+    import re
+    text = data.decode("utf-8", "replace").replace('"', "'")
+    payload = payload.replace('"', "'")                  # (dquote writes a DQUOTE inside a parameter value as an apostrophe)
+    if payload.strip("\r\n") == "":
+        return bool(payload) and re.search("[=:,;']" + re.escape(payload) + "[;:,'m]", text) is not None
+    for m in re.finditer(r"[\r\n]+", payload):
+        frag = payload[max(0, m.start() - 3): m.end() + 3]
+        if frag.strip("\r\n") != "" and frag in text:
+            return True
+    return False
+
+
 def check_inject(ctx, case):
     from icalendar import Calendar
     _, pos, payload = case
@@ -327,6 +350,9 @@ def check_inject(ctx, case):
         pred, involved = predict_structure(data)
         if involved and pred is not None and pred == got:
             key = "parts-placeholder-param"      # the defect model predicts the re-parsed structure exactly
+        elif sys.flags.optimize and raw_break_written(payload, data):
+            # python -O: the asserts that refuse a raw line break in a content line are gone and the writer put the value's own CR/LF on the wire
+            key = "asserts-stripped-under-O"
     if extra:
         ctx.fail("structure-extra", observed=(sorted(map(str, extra.elements()))[:5], data[:300]), expected="no additional or differently named component/property/parameter", key=key)
         return
